@@ -274,6 +274,8 @@ func init() {
 		}
 		return fr.i.newErrorString(msg)
 	}
+	// gRPC request metadata is plumbing: the context is handed on unchanged
+	e["google.golang.org/grpc/metadata.AppendToOutgoingContext"] = func(fr *frame, args []value) value { return args[0] }
 	e["errors.New"] = func(fr *frame, args []value) value {
 		return fr.i.newErrorString(argString(args[0]))
 	}
